@@ -45,9 +45,12 @@ def ratOf (x : Float) : Rat := (floatToRat? x).getD 0
 def DTables.paramsQ (t : DTables) : Params Rat :=
   let P := t.P.map ratOf; let F := t.F.map ratOf
   { n := t.n, P := fun i j => P[i * t.n + j]!, pi := fun k => F[k]! }
-def DTables.emisQ (t : DTables) : Emis Rat × List (Emis Rat) :=
-  let E := t.E.map ratOf
+/-- `bump = some i`: entry `i` of the flat emission table is increased by exactly 1 -/
+def DTables.emisQ' (t : DTables) (bump : Option Nat) : Emis Rat × List (Emis Rat) :=
+  let E0 := t.E.map ratOf
+  let E := match bump with | some i => E0.modify i (· + 1) | none => E0
   (fun j => E[j]!, (List.range (t.T - 1)).map (fun s => fun j => E[(s + 1) * t.n + j]!))
+def DTables.emisQ (t : DTables) : Emis Rat × List (Emis Rat) := t.emisQ' none
 
 def DTables.finite (t : DTables) : Bool :=
   (t.P.all Float.isFinite) && (t.F.all Float.isFinite) && (t.E.all Float.isFinite)
@@ -126,14 +129,16 @@ def small (t : DTables) : Bool := t.n ^ t.T ≤ 3000
 
 /-- exact likelihood of the current tables: enumeration when small, else the unscaled forward
 recursion in exact arithmetic (`forward_is_path_sum`) -/
-def exactLik (t : DTables) (bps : List Nat) : Option Rat :=
+def exactLik' (t : DTables) (bps : List Nat) (bump : Option Nat) : Option Rat :=
   let T := t.T
   if T == 0 then none else
-  let (e0, rest) := t.emisQ
+  let (e0, rest) := t.emisQ' bump
   let sites := mkSites rest bps
   if small t then some (pathSum t.paramsQ e0 sites)
   else if T ≤ 64 then some (fwdU t.paramsQ e0 sites)
   else none
+
+def exactLik (t : DTables) (bps : List Nat) : Option Rat := exactLik' t bps none
 
 /-- exact posterior marginals by path enumeration: `Σ_{paths with y_i = j} weight / Σ weight` -/
 def exactPost (t : DTables) (bps : List Nat) : Option (List (List Rat)) :=
@@ -310,11 +315,9 @@ def parse2 (s : String) : Option (Nat × Nat) :=
 `L` is affine in that entry, `L(e + 1) - L(e) = b`, so `d1 = -b / L`, `d2 = (b / L)²` -/
 def exactDeriv (t : DTables) (bps : List Nat) (s j : Nat) : Option (Rat × Rat) :=
   if s ≥ t.T || j ≥ t.n then none else
-  match exactLik t bps, exactLik { t with E := t.E.modify (s * t.n + j) (· + 1.0) } bps with
+  match exactLik t bps, exactLik' t bps (some (s * t.n + j)) with
   | some l0, some l1 =>
-    -- the modified entry must be exactly e + 1 in double arithmetic
-    let e := t.E[s * t.n + j]!
-    if l0 == 0 || ratOf (e + 1.0) != ratOf e + 1 then none else
+    if l0 == 0 then none else
     let b := l1 - l0
     some (-(b / l0), (b / l0) * (b / l0))
   | _, _ => none
@@ -326,6 +329,9 @@ def stationary (t : DTables) : Bool :=
     Float.abs ((List.range t.n).foldl (fun a k => a + t.F[k]! * t.P[k * t.n + j]!) 0.0 - t.F[j]!) ≤ 1e-13)
 
 /-- verdict on a derivative (order 1 or 2) with respect to `var` answered by the implementation -/
+def DTables.positive (t : DTables) : Bool :=
+  t.finite && (t.P.all (· > 0)) && (t.F.all (· > 0)) && (t.E.all (· > 0))
+
 def derivVerdict (o : Obj) (impl : List String) (var : String) (order : Nat) : String :=
   match impl with
   | [a] =>
@@ -333,7 +339,10 @@ def derivVerdict (o : Obj) (impl : List String) (var : String) (order : Nat) : S
     | none => "FAIL:parse"
     | some x =>
       let t := o.tab
-      if o.stale || !t.nonneg || !stationary t || !validBreaks t.T o.bps || !rangeOk t o.bps then "-" else
+      -- the rescaled recursions need a stationary equilibrium vector (see `stationary`); the log-sum ones
+      -- (not modelled, judged on the implementation only) divide by every emission probability
+      let applicable := match o.core with | .resc _ => stationary t | .log _ => t.positive | .low _ => false
+      if o.stale || !t.nonneg || !applicable || !validBreaks t.T o.bps || !rangeOk t o.bps then "-" else
       if !var.startsWith "e" then "-" else
       match parse2 (var.drop 1).toString with
       | none => "-"
@@ -616,7 +625,12 @@ def step (s : St) (op : List String) (impl : Option (List String)) : St × Strin
         let mop : Op Float := if dop == "d1" then .d1 var else .d2 var
         let (o1, a) := runOp o mop
         match o.core with
-        | .log _ => (s, match impl with | some i => " ".intercalate i | none => "unmodelled", "-")   -- not modelled: echo
+        | .log _ =>
+          -- not modelled: the answer is echoed, and judged against the exact derivative
+          (s, match impl with | some i => " ".intercalate i | none => "unmodelled",
+            match impl with
+            | some i => if isExc i || var == "" then "-" else derivVerdict o i var (if dop == "d1" then 1 else 2)
+            | none => "-")
         | _ => (s.put k o1, showAns a,
             match impl with
             | some i => if isExc i || var == "" then "-" else
